@@ -46,6 +46,7 @@ MUTANTS['C18'] = [
 ]
 
 MUTANTS['C14'] = [
+  ('batch-takes-user-indexerror-as-end', [(C, "                    if in_range:\n                        # Not the end of the input: the IndexError stems\n                        # from the evaluation of the example.\n                        raise\n                    break", "                    break")]),
   ('catch-except-exception', [(C, "                try:\n                    yield input_dataset[i]\n                except self.exceptions as e:", "                try:\n                    yield input_dataset[i]\n                except Exception as e:")]),
   ('catch-key-branch-except-exception', [(C, "                    yield k, input_dataset[k]\n                except self.exceptions as e:", "                    yield k, input_dataset[k]\n                except Exception as e:")]),
   ('catch-skips-last-index', [(C, "            for i in range(len(input_dataset)):\n                total_count += 1\n                try:\n                    yield input_dataset[i]", "            for i in range(len(input_dataset) - (1 if len(input_dataset) > 3 else 0)):\n                total_count += 1\n                try:\n                    yield input_dataset[i]")]),
@@ -225,6 +226,7 @@ MUTANTS['C05'] = [
 ]
 
 MUTANTS['C06'] = [
+  ('map-iter-yield-from-builtin-map', [(C, "            for v in self.input_dataset:\n                yield self.map_function(v)\n\n    def keys(self):", "            yield from map(self.map_function, self.input_dataset)\n\n    def keys(self):")]),
   ('stp-exc-info-reraise-removed', [(P, "    if exc_info is not None:\n        raise exc_info[1].with_traceback(exc_info[2])", "    if exc_info is not None and False:\n        raise exc_info[1].with_traceback(exc_info[2])")]),
   ('stp-catches-only-exception', [(P, "        except BaseException:\n            # Save the exception and reraise it in the main thread", "        except Exception:\n            # Save the exception and reraise it in the main thread")]),
   ('catcher-catches-exception', [(C, "                    try:\n                        return input_dataset[index]\n                    except catch_filter_exception:", "                    try:\n                        return input_dataset[index]\n                    except Exception:")]),
